@@ -130,8 +130,9 @@ pub fn program(c: &Cell, var: &str, in_place: bool, seed: u64) -> Option<(String
 }
 
 /// the cells of one run.  Quick: every (context, value kind) once, spelling / binder / depth /
-/// declaration site rotating with the seed so that every context meets 6 of the 8 spellings and
-/// every value kind meets all of them; thorough: every (context, value kind, spelling, site),
+/// declaration site rotating with the seed on strides that are pairwise decorrelated (every context
+/// meets 6 of the 8 spellings, every value kind all of them, all 16 (spelling, site) pairs and 44+ of the
+/// 48 (spelling, binder) pairs occur); thorough: every (context, value kind, spelling, site),
 /// binder and depth rotating.
 pub fn cells(seed: u64, thorough: bool) -> Vec<Cell> {
     let sp = spellings();
@@ -142,13 +143,13 @@ pub fn cells(seed: u64, thorough: bool) -> Vec<Cell> {
             let picks: Vec<(usize, Site)> = if thorough {
                 (0..sp.len()).flat_map(|si| [(si, Site::Same), (si, Site::Other)]).collect()
             } else {
-                vec![((ci + vi + s) % sp.len(), if (ci + 3 * vi + s) % 4 == 0 { Site::Other } else { Site::Same })]
+                vec![((ci + vi + s) % sp.len(), if (ci / 2 + 2 * vi + s) % 3 == 0 { Site::Other } else { Site::Same })]
             };
             for (pi, (si, site)) in picks.into_iter().enumerate() {
                 let (spell_kind, name) = sp[si];
                 let adm = admissible(site, spell_kind);
-                let binder = adm[(ci + 2 * vi + s + pi) % adm.len()];
-                let depth = 1 + (2 * ci + vi + s + pi / 2) % 3;
+                let binder = adm[(ci / 3 + vi + s + pi) % adm.len()];
+                let depth = 1 + (ci / 4 + vi + s + pi / 2) % 3;
                 out.push(Cell { ctx, val, binder, depth, site, spell_kind, name, rng_key: (ci * 64 + vi * 8 + si) as u64 });
             }
         }
